@@ -351,7 +351,9 @@ class PybindWrapper:
         if variable.default is None:
             variable_value = variable.name
         else:
+            # an initialiser is an expression of its own, not a name in the namespace
             variable_value = variable.default
+            namespace = ""
 
         return '{prefix}{module_var}.attr("{variable_name}") = {namespace}{variable_value};'.format(
             prefix=prefix,
